@@ -267,15 +267,16 @@ def _can_store(outputs, path):
 
 
 def _objects(mapping, prefix=''):
-    """path -> object for the values that have an identity worth comparing (class instances, lists)."""
+    """path -> object for the values that only identity can compare (class instances without __eq__); values with value equality
+    are compared by value, so that a defensive copy of a list or dict is not mistaken for a violation."""
     out = {}
     if not isinstance(mapping, (dict, plumpy.utils.Frozendict)):
         return out
     for k, v in mapping.items():
         if isinstance(v, (dict, plumpy.utils.Frozendict)):
             out.update(_objects(v, prefix + k + '.'))
-        elif isinstance(v, (A, list)):
-            out[prefix + k] = v
+        elif isinstance(v, A):
+            out[prefix + k] = v  # (an object without value equality: a copy of it is not "the stored value" by any reading)
     return out
 
 
